@@ -539,7 +539,7 @@ pub fn fresh_digests(tapes: &[Vec<u32>]) -> Vec<String> {
         .collect()
 }
 
-const HIST_RULE: &str = "history independence against a FRESH PROCESS: case = (voice, condition A, condition B differing from A in 1..3 fields such as frame period / sampling rate / speed / alpha / thresholds / alignment flag, 1..5 label lines mostly with time stamps). A child process computes digest(A(L)), digest(B(L)) in that order with no other history; the parent - after all other C03 work, i.e. with a long history - computes B(L), A(L), B(L) on separately built engines and must obtain the same digests. Detects hidden state keyed by only a part of the inputs (e.g. a cache keyed by the label text). Non-trivial: every compared case; distinct by case";
+const HIST_RULE: &str = "history independence against a FRESH PROCESS: case = (voice, condition A, condition B differing from A in 1..3 fields such as frame period / sampling rate / speed / alpha / thresholds / alignment flag, 1..5 label lines mostly with time stamps). A child process computes digest(A(L)), digest(B(L)) in that order with no other history; the parent - after all other C03 work, i.e. with a long history - computes B(L), A(L), B(L) on separately built engines, and A(L) then B(L) on ONE engine moved from A to B by setters, and must obtain the same digests. Detects hidden state keyed by only a part of the inputs (e.g. a cache keyed by the label text). Non-trivial: every compared case; distinct by case";
 
 fn history_independence(s: &mut Session) {
     use proptest::strategy::{Strategy, ValueTree};
@@ -598,6 +598,14 @@ fn history_independence(s: &mut Session) {
                                 let b2 = run(&eb)?;
                                 ensure!(a1 == da, "history-dependence", "condition A after the same labels were synthesized under condition B: waveform differs from the one a fresh process computes (labels {:?})", c.lines);
                                 ensure!(b1 == db && b2 == db, "history-dependence", "condition B: waveform differs from the one a fresh process computes after A (labels {:?})", c.lines);
+                                // ONE engine that serves the request under A and is then moved to B by setters
+                                let mut ec = hist_engine(&c, false)?;
+                                let a3 = run(&ec)?;
+                                c.cond_b.apply(&mut ec);
+                                ec.condition.set_phoneme_alignment_flag(c.align_b);
+                                let b3 = run(&ec)?;
+                                ensure!(a3 == da, "history-dependence", "condition A on a third engine differs from the fresh process (labels {:?})", c.lines);
+                                ensure!(b3 == db, "history-dependence", "an engine that served the request under condition A and was then moved to condition B by setters renders B differently from a fresh engine set to B (labels {:?})", c.lines);
                                 Ok(())
                             });
                             Some(match r {
